@@ -17,7 +17,11 @@ PARAMS = {
     "ec67_29h2": (67, 1, 7, (2, 33), 29, 2),
     # the order needs one octet more than the field (n_size = 2, p_size = 1), as on secp160k1/r1/r2 and secp224k1; p = 3 mod 4
     "ec251_257": (251, 1, 16, (0, 4), 257, 1),
+    # orders of exactly eight bits (found by search): r >= 128 occurs, rarely -- the situation ECDSA's low-R grinding exists for
+    "ec131_137": (131, 1, 9, (0, 3), 137, 1),
+    "ec149_139": (149, 2, 8, (2, 13), 139, 1),
 }
+_SPECIAL = ("ec251_257", "ec131_137", "ec149_139")
 _CACHE = {}
 
 
@@ -70,7 +74,7 @@ def lib_point(P):
 
 
 QUICK = ["ec13_11", "ec17_13", "ec23_19", "ec67_19h4"]
-ALL = [c for c in PARAMS if c != "ec251_257"]     # the 257-point curve is only used where the order's octet length matters (C03 challenge layout)
+ALL = [c for c in PARAMS if c not in _SPECIAL]     # the 257-point curve is only used where the order's octet length matters (C03 challenge layout)
 SCHNORR_QUICK = ["ec19_23", "ec23_19"]          # p % 4 == 3
 SCHNORR_ALL = ["ec19_13", "ec19_23", "ec23_19", "ec23_31", "ec67_19h4", "ec67_29h2"]
 
